@@ -474,7 +474,7 @@ package rux
 //@     || m == "HEAD" || m == "CONNECT" || m == "TRACE"
 //@ spec methodsTable() bool = len(anyMethods) == 9 && anyMethods[0] == "GET" && anyMethods[1] == "POST" && anyMethods[2] == "PUT"
 //@     && anyMethods[3] == "PATCH" && anyMethods[4] == "DELETE" && anyMethods[5] == "OPTIONS" && anyMethods[6] == "HEAD"
-//@     && anyMethods[7] == "CONNECT" && anyMethods[8] == "TRACE"
+//@     && anyMethods[7] == "CONNECT" && anyMethods[8] == "TRACE" && (forall j int :: 0 <= j && j < 9 ==> isMethod(anyMethods[j]))
 //
 //@ func (*Route).goodInfo [C13]
 //@   requires methodsTable()
